@@ -21,6 +21,22 @@ pub fn load_replay(ctx: &mut Ctx) -> Option<ReplaySpec> {
     Some(spec)
 }
 
+/// One case. A panic that escapes the monitor's own guards is caught here: one that started in repository code (a call
+/// the monitor did not guard) is an observation about the repository and becomes a violation; one that started in the
+/// harness (an oracle or generator meeting a state it was not written for, typically because the code under test
+/// produced something unexpected earlier in the case) is recorded and the other cases go on.
+fn run_one<F>(ctx: &Ctx, f: &F, rng: &mut Rng, local: &mut Report, workload: &str, i: u64)
+where F: Fn(&mut Rng, &mut Report, u64) + Sync {
+    if let Err(pi) = crate::guard::guard(|| f(rng, local, i)) {
+        let repo = std::env::var("VERIF_REPO").unwrap_or_else(|_| "/repo".into());
+        if pi.file.starts_with(&format!("{}/", repo.trim_end_matches('/'))) || pi.file.starts_with("/repo/") {
+            local.violation(format!("{} panic {}", ctx.prop, pi.site()), serde_json::json!({"panic": pi.message, "at": format!("{}:{}", pi.file, pi.line), "note": "escaped through a call the monitor does not guard; re-run the case with --replay"}));
+        } else {
+            local.harness_panics.push(format!("workload {workload} case {i}: {} ({}:{})", pi.message, pi.file, pi.line));
+        }
+    }
+}
+
 /// Runs cases `0..n` of `workload` on `ctx.threads` workers. Case `i` gets `Rng::new(case_seed(seed, prop/workload, i))`.
 /// Generation stops early when the wall-clock budget is used up (recorded, never a verdict).
 /// In replay mode only the recorded case of the recorded workload runs.
@@ -32,7 +48,7 @@ where F: Fn(&mut Rng, &mut Report, u64) + Sync {
         let mut local = Report::new();
         local.cur = (workload.to_string(), r.case);
         let mut rng = Rng::new(case_seed(ctx.seed, &key, r.case));
-        f(&mut rng, &mut local, r.case);
+        run_one(ctx, &f, &mut rng, &mut local, workload, r.case);
         report.merge(local);
         return;
     }
@@ -50,7 +66,7 @@ where F: Fn(&mut Rng, &mut Report, u64) + Sync {
                     if i >= n { break; }
                     local.cur = (workload.to_string(), i);
                     let mut rng = Rng::new(case_seed(ctx.seed, key, i));
-                    f(&mut rng, &mut local, i);
+                    run_one(ctx, f, &mut rng, &mut local, workload, i);
                     done.fetch_add(1, Ordering::Relaxed);
                 }
                 local
